@@ -292,6 +292,14 @@ class Model:
             else:
                 fr.storev(dest, Opt(None, ('decoded', ty, name), lab))
             return True
+        if name == 'in_subgroup' and trait == 'SubgroupCheck' and len(args) == 1:
+            # the full membership predicate (curve equation and order) applied to the result of an unchecked decoder:
+            # what the checked decoder would have done itself
+            v = fr.deref_operand(args[0])
+            if isinstance(v, tuple) and len(v) == 3 and v[0] == 'decoded' and v[2] == 'into_affine_unchecked':
+                fr.storev(dest, ('bool', ('validated', v[1], where)))
+                return True
+            return False
         if name == 'into_projective' and trait == 'CurveAffine':
             fr.storev(dest, ('proj', fr.deref_operand(args[0])))
             return True
